@@ -12,7 +12,8 @@ def resultKeys : List (List Char × List (List Char) × List (List Char)) :=
    (['g','r','o','m','a','c','s'], [['a','t','c','o','o','r','d','s'], ['a','t','f','f','p','a','r','a','m','s'], ['c','e','l','l','v','e','c','s'], ['e','x','t','r','a'], ['t','i','t','l','e']], []),
    (['p','o','s','c','a','r'], [['a','t','c','o','o','r','d','s'], ['a','t','n','u','m','s'], ['c','e','l','l','v','e','c','s'], ['t','i','t','l','e']], []),
    (['c','h','g','c','a','r'], [['a','t','c','o','o','r','d','s'], ['a','t','n','u','m','s'], ['c','e','l','l','v','e','c','s'], ['c','u','b','e'], ['t','i','t','l','e']], []),
-   (['l','o','c','p','o','t'], [['a','t','c','o','o','r','d','s'], ['a','t','n','u','m','s'], ['c','e','l','l','v','e','c','s'], ['c','u','b','e'], ['t','i','t','l','e']], [])]
+   (['l','o','c','p','o','t'], [['a','t','c','o','o','r','d','s'], ['a','t','n','u','m','s'], ['c','e','l','l','v','e','c','s'], ['c','u','b','e'], ['t','i','t','l','e']], []),
+   (['c','h','a','r','m','m'], [['a','t','c','o','o','r','d','s'], ['a','t','f','f','p','a','r','a','m','s'], ['a','t','m','a','s','s','e','s'], ['e','x','t','r','a'], ['t','i','t','l','e']], [])]
 
 /-- `load_many` of these modules: does every `yield` yield, unmodified, a dictionary returned by `load_one(lit, …)`? -/
 def loadManyFrames : List (List Char × Bool) :=
